@@ -41,6 +41,8 @@ var rmCmd = &cobra.Command{
 		return nil
 	},
 	RunE: func(cmd *cobra.Command, args []string) error {
+		args = toWorkTreePaths(args)
+
 		// args validation
 		for _, arg := range args {
 			// check if the arg is registered in the Index
